@@ -170,6 +170,11 @@ func checkC07() fw.Check {
 								res, err := runEngine(context.Background(), true, d, p)
 								ev := d.Snapshot()
 								checkMerge(c, fmt.Sprintf("%s sched %v", id, sched), 1, uint8(b.n), ev, res, err)
+								// every reply that was available one poll interval before the engine's deadline must have been read
+								deadline := c07Timeout + time.Duration(b.n)*c07Delay
+								if un := d.Unused(deadline - c07Poll); len(un) > 0 && err == nil {
+									c.Violate("C07", "reply-never-read", fmt.Sprintf("%s sched %v: %d reply(ies) available more than one poll interval before the deadline were never read by the engine (first: ttl %d due at %v)", id, sched, len(un), un[0].TTL, un[0].At), ev)
+								}
 								c.Count("schedules", 1)
 								il := interleaving(ev)
 								if strings.Contains(il, "R") {
